@@ -185,11 +185,12 @@ def require_closure(vfiles: list[str]) -> list[str]:
         seen.append(f)
         txt = open(os.path.join(COQ, f)).read()
         txt = re.sub(r"\(\*.*?\*\)", " ", txt, flags=re.S)
-        for m in re.finditer(r"(?:From\s+TL\s+)?Require\s+(?:Import\s+|Export\s+)?([^.]*(?:\.[A-Za-z_][\w.]*)*)\s*\.(?:\s|$)", txt):
-            for name in m.group(1).split():
+        for m in re.finditer(r"(From\s+(\S+)\s+)?Require\s+(?:Import\s+|Export\s+)?([^.]*(?:\.[A-Za-z_][\w.]*)*)\s*\.(?=\s|$)", txt):
+            prefix = m.group(2)
+            for name in m.group(3).split():
                 if name.startswith("TL."):
                     rel = "theories/" + name[3:].replace(".", "/") + ".v"
-                elif m.group(0).startswith("From") and re.match(r"From\s+TL\s", m.group(0)):
+                elif prefix == "TL":
                     rel = "theories/" + name.replace(".", "/") + ".v"
                 else:
                     continue
@@ -505,9 +506,9 @@ def main(argv=None):
         run.violation({"kind": "harness-error", "trace": tb,
                        "broken": run.broken()}, found_input=False)
     run.write_evidence()
-    run.log(f"done: obligations {sum(o['ok'] for o in run.obligations)}/{len(run.obligations)}, "
-            f"corr {{{', '.join(f'{k}:{v['cases']}/{v['mismatches']}' for k, v in run.corr.items())}}}, "
-            f"violations {len(run.violations)}")
+    corr = ", ".join("%s:%d/%d" % (k, v["cases"], v["mismatches"]) for k, v in run.corr.items())
+    run.log("done: obligations %d/%d, corr {%s}, violations %d" % (
+        sum(o["ok"] for o in run.obligations), len(run.obligations), corr, len(run.violations)))
     return 1 if run.violations else 0
 
 
